@@ -38,6 +38,13 @@ func ZZC11(mode, script, varspec, metaSpec, flags string) {
 	ctx := context.Background()
 	switch mode {
 	case "purity":
+		// the caller's store also holds a row for @world (a real ledger does): it is the
+		// caller's, whatever the run thinks of it
+		if _, has := e.store.Balances["world"]; !has {
+			w := zzvrt.BigInt("bal_world_USD")
+			e.start[zzKey("world", "USD")] = w
+			e.store.Balances["world"] = AccountBalance{"USD": new(big.Int).Set(w)}
+		}
 		// the repo's own StaticStore and a harness store that hands out its own maps
 		store := StaticStore{Balances: e.store.Balances, Meta: meta}
 		varsBefore := map[string]string{}
